@@ -24,6 +24,9 @@ if REPO not in sys.path:
 logging.disable(logging.CRITICAL)
 
 import numpy as np  # noqa: E402
+import warnings  # noqa: E402
+warnings.filterwarnings("ignore")      # numpy's overflow/invalid warnings of the code under test are not findings
+np.seterr(all="ignore")
 
 FLOAT_MAX = sys.float_info.max
 
